@@ -351,7 +351,7 @@ func (rc *racCompiler) call(x ECall) (string, types.Type, bool) {
 			return rc.failf("%v", err)
 		}
 		return fmt.Sprintf("func() bool { _, ok := %s.(%s); return ok }()", a, rc.b.typeStr(t)), tBool, true
-	case "fresh", "arr", "off", "disjoint", "ref", "dyn", "implements", "funcis", "idx":
+	case "fresh", "allocated", "arr", "off", "disjoint", "ref", "dyn", "implements", "funcis", "idx":
 		return rc.failf("%s() has no run-time meaning", id.Name)
 	}
 	sf := rc.p.Contracts.Spec(id.Name, rc.fn.Pkg.Pkg.Path())
